@@ -86,6 +86,76 @@ func genSynthSweep(seed uint64, prop, tier, mode string) *Plan {
 	return p
 }
 
+// genSynthSel: the selection counterpart of the synthetic repeat sweep (C07). Every run draws a batch of
+// synthetic objects and lints each of them, as the same parsed object, through a fixed family of
+// selections in which the *other* lints sharing the object - and the order they run in - differ:
+// the global registry (registration order), a filtered registry that keeps everything (name order),
+// everything but one seeded lint, one source, and a seeded half; then once more through the global
+// registry. Every result is judged against the single-lint fresh-process reference and against the
+// other selections of the run.
+func genSynthSel(seed uint64, prop, tier, mode string) *Plan {
+	g := newRNG(seed)
+	meta := readMetaTable()
+	idx := corpusIndex()
+	p := &Plan{Engine: "hist", Prop: prop, Seed: seed, Tier: tier, Knobs: map[string]any{"worker_mode": mode}}
+	hg := &histGen{g: g, meta: meta, p: p, prof: profileFor(prop)}
+	all := map[string]bool{}
+	for _, n := range meta.Names {
+		all[n] = true
+	}
+	hg.mregs = []*ModelReg{{Sel: all, Cfg: -1}}
+	n := 12
+	if tier == "thorough" {
+		n = 30
+	}
+	// selections shared by the whole run
+	var probes []string
+	for _, nm := range meta.Names {
+		if meta.ByName[nm].Probe {
+			probes = append(probes, nm)
+		}
+	}
+	var regs []int
+	if len(probes) > 0 {
+		regs = append(regs, hg.emitFilterOpts(0, &FilterOpts{ExcludeNames: []string{pick(g, probes)}})) // everything real, in name order
+	}
+	regs = append(regs, hg.emitFilterOpts(0, &FilterOpts{ExcludeNames: []string{pick(g, meta.Names)}}))
+	regs = append(regs, hg.emitFilterOpts(0, &FilterOpts{IncludeSources: []string{pick(g, meta.sources())}}))
+	var half []string
+	for _, j := range g.subset(len(meta.Names), len(meta.Names)/2) {
+		half = append(half, meta.Names[j])
+	}
+	regs = append(regs, hg.emitFilterOpts(0, &FilterOpts{IncludeNames: half}))
+	for i := 0; i < n; i++ {
+		var o *ObjSpec
+		if i%6 == 5 {
+			o = synthCRL(g, idx)
+		} else {
+			o = synthCert(g, idx)
+		}
+		if o == nil {
+			continue
+		}
+		p.Objects = append(p.Objects, *o)
+		oi := len(p.Objects) - 1
+		order := g.Perm(len(regs))
+		first := g.Chance(0.5)
+		if first {
+			p.Ops = append(p.Ops, Op{K: "lint", Obj: oi, Reg: 0, Path: "ex"})
+		}
+		for _, j := range order {
+			if regs[j] >= 0 {
+				p.Ops = append(p.Ops, Op{K: "lint", Obj: oi, Reg: regs[j], Path: "ex"})
+			}
+		}
+		if !first || g.Chance(0.5) {
+			p.Ops = append(p.Ops, Op{K: "lint", Obj: oi, Reg: 0, Path: "ex"})
+		}
+	}
+	p.Knobs["n_objects"] = len(p.Objects)
+	return p
+}
+
 // tornTexts are the documents the torn-file sweep cuts at every offset. They are
 // the same for every run of the batch so that the offsets partition them.
 func tornTexts(meta *MetaTable) []CfgSpec {
